@@ -260,3 +260,58 @@ def map_numeric_keys_same(ki: int) -> bool:
     k = KEYS31[ki]
     n = T['num_keys'].evaluate(XPathContext(item=1, variables={'k': k}))
     return len(n) == 1 and n(k) == 'C'
+
+
+# --- added after round-2 review: merge policies reject/combine and operand immutability; falsy values; join operand ---------------
+
+T.update(parse_all({
+    'combine': 'let $m := map{$k1: ($v1, $v2)} return (map:merge(($m, map{$k2: $v}), map{"duplicates": "combine"})($q), -7, $m($k1))',
+    'reject': 'map:size(map:merge((map{$k1: $v1}, map{$k2: $v2}), map{"duplicates": "reject"}))',
+    'put_falsy': 'let $m := map:put(map{1: 5}, $k, $v) return ($m($k), map:size($m))',
+    'join_operand': 'let $a := [$x0, $x1], $b := [$x2] return (array:size(array:join(($a, $b))), array:size($a), array:size($b), $a?*, $b?*)',
+    'flatten_operand': 'let $a := [$x0, [$x1]] return (array:flatten(($a, $x2)), array:size($a))',
+}))
+
+
+@ob(budget=200, bound='keys in [0,2], values unbounded: combine and reject policies; the first operand map is unchanged after combine',
+    funcs=[F31 + ':map:merge'])
+def map_merge_combine_reject(k1: int, k2: int, v1: int, v2: int, v: int, q: int) -> bool:
+    """
+    pre: 0 <= k1 <= 2 and 0 <= k2 <= 2 and 0 <= q <= 2 and v1 != -7 and v2 != -7 and v != -7
+    post: _
+    """
+    want = {k1: [v1, v2]}
+    if k2 == k1:
+        want[k1] = [v1, v2, v]
+    else:
+        want[k2] = [v]
+    r = ev(T['combine'], k1=k1, k2=k2, v1=v1, v2=v2, v=v, q=q)
+    if r != want.get(q, []) + [-7, v1, v2]:
+        return False
+    try:
+        n = ev(T['reject'], k1=k1, k2=k2, v1=v1, v2=v2)
+    except ElementPathError as e:
+        return k1 == k2 and err_code(e) == 'FOJS0003'
+    return k1 != k2 and n == [2]
+
+
+@ob(budget=120, bound='key in [0,2]; value: integer in [-1,1] (incl. 0), boolean, string of length <= 1 (incl. empty): map:get(map:put(m,k,v),k) = v also for falsy values',
+    funcs=[F31 + ':map:put'])
+def map_put_falsy_values(k: int, vi: int, vb: bool, vs: str) -> bool:
+    """
+    pre: 0 <= k <= 2 and -1 <= vi <= 1 and len(vs) <= 1
+    post: _
+    """
+    size = 1 if k == 1 else 2
+    return ev(T['put_falsy'], k=k, v=vi) == [vi, size] and ev(T['put_falsy'], k=k, v=vb) == [vb, size] \
+        and ev(T['put_falsy'], k=k, v=vs) == [vs, size]
+
+
+@ob(budget=120, bound='3 unbounded integer members: operands of array:join / array:flatten bound to variables are unchanged',
+    funcs=[F31 + ':array:join', F31 + ':array:flatten'])
+def array_join_operand_unchanged(x0: int, x1: int, x2: int) -> bool:
+    """
+    post: _
+    """
+    return ev(T['join_operand'], x0=x0, x1=x1, x2=x2) == [3, 2, 1, x0, x1, x2] \
+        and ev(T['flatten_operand'], x0=x0, x1=x1, x2=x2) == [x0, x1, x2, 2]
